@@ -13,7 +13,8 @@ package main
 // `outs` are the fields the code assigns; `opaque` are assignment targets that belong to the
 // abstracted part (loops that compute them are skipped, and only then).
 //
-// The theorems `Cedar.C10.core_is_the_code` and `Cedar.C05.levelOK_is_the_code` prove the hand-written
+// The theorems `Cedar.C10.core_is_the_code`, `Cedar.C05.levelOK_is_the_code` and
+// `Cedar.C05.satisfies_is_the_code` prove the hand-written
 // model functions equal to these generated ones, so a change of the Go decision logic changes the
 // generated definition and breaks the proof unless the model (and everything proved about it) follows.
 
@@ -461,6 +462,17 @@ func genDecisions(repo, out string) error {
 			retBool: true,
 			after:   "if req == nil",
 			consts:  secConsts,
+		}},
+		{srv, transSpec{
+			pkg: "server", fn: "sessionSatisfies", leanName: "sessionSatisfies",
+			doc:    "server.(*Server).sessionSatisfies: the order of the three tests a session must pass before a command's handler runs, given the verdicts of commandLevelSatisfied and authorized.",
+			params: []leanParam{{"negNil", "Bool"}, {"levelOK", "Bool"}, {"haveAuthorizer", "Bool"}, {"authorizedNow", "Bool"}},
+			exprs: map[string]string{
+				"neg == nil": "negNil",
+				"s.commandLevelSatisfied(realCmd, neg.Authentication, neg.Encryption)": "levelOK",
+				"s.Authorizer != nil":                       "haveAuthorizer",
+				"s.authorized(realCmd, peerAddr, neg.User)": "authorizedNow",
+			},
 		}},
 	}
 	var b strings.Builder
